@@ -13,12 +13,20 @@ MODIFIES = {
     # the caller-supplied named-schema dictionary is the documented in/out parameter
     (S, "parse_schema"): ["named_schemas"],
     (S, "_parse_schema"): ["named_schemas", "names"],       # `names`: per-parse set created by parse_schema
-    (S, "_parse_schema_with_repo"): ["injected_schemas"],   # per-load set created by load_schema
+    (S, "parse_field"): ["named_schemas", "names"],
+    # load_schema and its helpers: the named-schema dictionary and the per-load set; `schema` here is the
+    # object freshly loaded from the repository (json.load), which injection rewrites in place
+    (S, "_parse_schema_with_repo"): ["injected_schemas", "named_schemas", "schema"],
+    (S, "_load_schema"): ["injected_schemas", "named_schemas"],
+    (S, "load_schema"): ["named_schemas", "_injected_schemas"],
     # injection rewrites the schema object freshly loaded from the repository (never a user schema)
     (S, "_inject_schema"): ["outer_schema"],
 }
 RETURNS = {
     "reader": "fresh", "block_reader": "fresh", "file_reader": "fresh",
+    "_default_named_schemas": "fresh",
+    # parse_schema returns its argument itself when that is already parsed
+    "parse_schema": "arg0",
     # Parser.parse / _parse build the grammar (lists of fresh Symbol objects) from the schema
     "parse": "fresh", "_parse": "fresh",
 }
